@@ -710,6 +710,30 @@ def pool_rules(fb, R):
     R.check(ok, 'P3-joiner-declared-last', P + '#fields', '%s:%d' % (rec.file, rec.line),
             'the thread_joiner member must be declared after the work queue and the thread vector (destroyed first => joins before they die); order is %s' % names)
 
+    # P5: a failure while spawning workers must not leave started workers without their stop task: the spawn sits in a try whose
+    # catch-all pushes the stop tasks (shutdown_all_workers) and rethrows -- otherwise ~thread_joiner joins workers forever
+    nspawn = 0
+    for fn in fb.fns(P + '::(ctor)'):
+        spawns = [n for n in fn.all_nodes() if n.get('k') == 'call' and n.get('q') in ('std::vector::emplace_back', 'std::vector::push_back')
+                  and (fn.sn(n.get('recv')) or {}).get('k') == 'member' and 'std::thread' in (fn.sn(n.get('recv')) or {}).get('t', '')]
+        for sp in spawns:
+            nspawn += 1
+            ok = False
+            for t in fn.enclosing_tries(sp['id']):
+                for h in t['handlers']:
+                    if not h.get('all'):
+                        continue
+                    calls = [n for n in fn.all_nodes() if n.get('k') == 'call' and n.get('q') == P + '::shutdown_all_workers'
+                             and fn.in_range(n['id'], h['b'], h['e'])]
+                    rethrows = [n for n in fn.all_nodes() if n.get('k') == 'throw' and n.get('rethrow') and fn.in_range(n['id'], h['b'], h['e'])]
+                    if calls and rethrows:
+                        ok = True
+            R.check(ok, 'P5-spawn-failure-shuts-workers-down', P + '::(ctor)#spawn', fn.loc(sp['id']),
+                    'worker threads are started outside a try whose catch-all calls shutdown_all_workers() and rethrows: if starting a '
+                    'later thread fails, the workers already running never get a stop task and ~thread_joiner blocks forever')
+    if nspawn == 0:
+        R.broken('Pool constructor: no std::thread is added to the thread vector')
+
     # P4 submit
     nsub = 0
     for fn in fb.fns(P + '::submit'):
@@ -762,6 +786,7 @@ def run(ctx):
     R.expect('Q8-no-callout-under-lock', 6)
     R.expect('P2-call-return-values', 2)
     R.expect('P4-submit-future-before-push', 1)
+    R.expect('P5-spawn-failure-shuts-workers-down', 1)
 
 
 def _selftest_queue(fb, R):
